@@ -166,20 +166,18 @@ func oracleC11(p *sim.Plan, out *sim.Outcome) []sim.Violation {
 			}
 		}
 	}
-	phaseOfStep := func(step int) int {
-		best := -1
-		for ph, e := range ends {
-			if e >= step && (best < 0 || e < ends[best]) {
-				best = ph
-			}
-		}
-		return best
-	}
 	offlineSince := map[int]int{} // client -> step at which it went offline with a persistent session
 	closed := map[int]bool{}
 	lastAdvanceCheck := 0
 	_ = lastAdvanceCheck
+	curPhase := -1
 	for _, r := range h.Recs {
+		if r.Kind == "phase" {
+			var k int
+			if n, _ := fmt.Sscanf(r.Note, "start %d", &k); n == 1 {
+				curPhase = k
+			}
+		}
 		switch r.Kind {
 		case "cclose", "bclose":
 			if closed[r.Conn] || r.C <= 0 {
@@ -199,9 +197,9 @@ func oracleC11(p *sim.Plan, out *sim.Outcome) []sim.Violation {
 			if !cur {
 				continue
 			}
-			e := -1
-			if ph := phaseOfStep(r.Step); ph >= 0 {
-				e = ends[ph]
+			e, ok := ends[curPhase]
+			if !ok {
+				e = -1
 			}
 			if expiryOf[r.Conn] == 0 {
 				revokeAll(r.C, model.Span{Inv: r.Step, Resp: e})
